@@ -84,7 +84,7 @@ pub fn run_check(replay: Option<Value>) -> i32 {
         dim("jacobian", &["user", "finite-difference"]),
         dim("api", &["solve_ivp", "low-level builder"]),
         dim("first_step", &["auto", "given", "given, four times the span (first attempts rejected, trial stages far out)"]),
-        dim("stop", &["none", "interrupt/terminal early", "modified(x1)@2 (low-level only)", "interrupt/terminal late", "modified(x2) at the initial callback (low-level only)"]),
+        dim("stop", &["none", "interrupt/terminal early", "modified(x1)@2 (low-level only)", "interrupt/terminal late", "modified(x2) at the initial callback (low-level only)", "interrupt at the initial callback (low-level only)"]),
     ];
     lattice(&mut rep, "stats", &dims, only.as_deref(), |key, idx| {
         let m = M6[idx[0]];
@@ -108,7 +108,7 @@ pub fn run_check(replay: Option<Value>) -> i32 {
         if p0.name.starts_with("vanderpol") && backward {
             return None; // unstable backward
         }
-        if (stop == 2 || stop == 4) && !low {
+        if (stop == 2 || stop == 4 || stop == 5) && !low {
             return None;
         }
         let span = if p0.name.starts_with("vanderpol") { span * 200.0 } else { span };
@@ -134,13 +134,14 @@ pub fn run_check(replay: Option<Value>) -> i32 {
                 1 => vec![(2, Ans::Interrupt)],
                 2 => vec![(2, Ans::Modified(1.0))],
                 4 => vec![(0, Ans::Modified(2.0))],
+                5 => vec![(0, Ans::Interrupt)],
                 _ => {
                     let plain = run_lowlevel(&p, &c, &[], &[], None, false);
                     vec![(plain.recs.len().saturating_sub(2).max(1), Ans::Interrupt)]
                 }
             };
             let r = run_lowlevel(&p, &c, &script, &[], None, false);
-            if stop == 1 || stop == 3 {
+            if stop == 1 || stop == 3 || stop == 5 {
                 out.tag("interrupted");
             }
             if stop == 2 || stop == 4 {
@@ -254,6 +255,63 @@ pub fn run_check(replay: Option<Value>) -> i32 {
             _ => out.violations.push(Violation::new(key, "zero-length", format!("zero-length run ended with {}", r.outcome_name()), desc.clone())),
         }
         out.events = 1;
+        Some(out)
+    });
+
+    // the automatic initial step probes the right-hand side one Euler step ahead: on a tank whose level is below
+    // atol next to a large reservoir that probe lies outside the domain (sqrt of a negative level); whatever the
+    // estimate does about it, every evaluation it makes is counted
+    let tdims = vec![dim("method", &M6.iter().map(|m| mname(*m)).collect::<Vec<_>>()), dim("level0/atol", &["1e-4 / 1e-3", "1e-8 / 1e-6", "1e-6 / 1e-2"]), dim("api", &["solve_ivp", "low-level builder"])];
+    lattice(&mut rep, "probe", &tdims, only.as_deref(), |key, idx| {
+        let m = M6[idx[0]];
+        let (l0, atol) = [(1e-4, 1e-3), (1e-8, 1e-6), (1e-6, 1e-2)][idx[1]];
+        let p = Prob {
+            name: "tank beside a reservoir".into(),
+            n: 2,
+            f: Arc::new(|_t, y, d| {
+                let q = y[0].sqrt();
+                d[0] = -q;
+                d[1] = q;
+            }),
+            jac: Some(Arc::new(|_t, y| {
+                let d = 0.5 / y[0].sqrt();
+                vec![-d, 0.0, d, 0.0]
+            })),
+            flow: None,
+            y0: vec![l0, 100.0],
+            linear_homogeneous: false,
+        };
+        let xend = 0.9 * 2.0 * l0.sqrt();
+        let mut c = Cfg::new(m, 0.0, xend, &p.y0).tol(1e-3, atol);
+        c.user_jac = true;
+        if m == ivp::prelude::Method::RK4 {
+            c.first_step = Some(xend / 20.0);
+        }
+        let mut out = CaseOut::default();
+        let desc = json!({"key": key, "point": describe(&tdims, idx), "cfg": c.json(&p.name)});
+        let (rep_nfev, rep_njev, calls, jcalls, name) = if idx[2] == 0 {
+            let r = run(&p, &c);
+            match r.sol() {
+                Some(s) => (s.nfev as u64, s.njev as u64, r.st.n_ode, r.st.n_jac, r.outcome_name()),
+                None => return Some(out),
+            }
+        } else {
+            let r = run_lowlevel(&p, &c, &[], &[], None, false);
+            match r.ok() {
+                Some(ir) => (ir.evals.ode as u64, ir.evals.jac as u64, r.st.n_ode, r.st.n_jac, r.outcome_name()),
+                None => return Some(out),
+            }
+        };
+        out.events = calls;
+        if rep_nfev != calls {
+            out.violations.push(Violation::new(key, "nfev", format!("nfev = {} but the right-hand side was evaluated {} times (run ended with {})", rep_nfev, calls, name), desc.clone()).with("method", mname(m)));
+        }
+        if rep_njev != jcalls {
+            out.violations.push(Violation::new(key, "njev", format!("njev = {} but the Jacobian was evaluated {} times", rep_njev, jcalls), desc.clone()).with("method", mname(m)));
+        }
+        out.validated = 2;
+        out.tag("probe-outside-domain");
+        out.fp = Some(calls as u128 ^ ((idx[0] as u128) << 40) ^ ((idx[1] as u128) << 50) ^ ((idx[2] as u128) << 60));
         Some(out)
     });
 
